@@ -187,3 +187,77 @@ Proof.
   rewrite <- app_assoc. cbn [app]. rewrite (scan_then_inside x content rest (x :: acc) Hc).
   cbn [rev]. rewrite rev_app_distr. cbn [rev app]. rewrite <- !app_assoc. reflexivity.
 Qed.
+
+(** the conditions [c] are passed without a split when no whitespace character of [c] outside its literals (other than its first
+    character) is followed - after further whitespace - by `then`, whitespace and a non-empty rest; [passes] says so by the
+    recursion of the scan itself, [rest] being the text after the conditions *)
+Fixpoint passes (c rest : str) (q : option Z) (first : bool) : bool :=
+  match c with
+  | [] => true
+  | x :: r =>
+      match q with
+      | Some _ => passes r rest (qstep q x) false
+      | None =>
+          if is_quote x then passes r rest (Some x) false
+          else if ws_unicode x && negb first then
+                 let t := tstart ((x :: r) ++ rest) in
+                 if starts_with t s_then then
+                   let tail := skipn 4 t in
+                   if (length (tstart tail) <? length tail)%nat && nonempty (tstart tail) then false
+                   else passes r rest None false
+                 else passes r rest None false
+               else passes r rest None false
+      end
+  end.
+
+Lemma scan_then_passes : forall c rest q acc first, passes c rest q first = true ->
+  scan_then (c ++ rest) q acc first = scan_then rest (scan q c) (rev c ++ acc) (first && match c with [] => true | _ => false end).
+Proof.
+  induction c as [|x r IH]; intros rest q acc first H.
+  - cbn. rewrite andb_true_r. reflexivity.
+  - cbn [app scan_then passes scan fold_left rev] in *. rewrite andb_false_r.
+    assert (Step : forall q', passes r rest q' false = true ->
+              scan_then (r ++ rest) q' (x :: acc) false = scan_then rest (scan q' r) ((rev r ++ [x]) ++ acc) false).
+    { intros q' H'. rewrite (IH rest q' (x :: acc) false H'). rewrite <- app_assoc. cbn [app]. destruct r; reflexivity. }
+    destruct q as [y|]; [apply Step; exact H|].
+    cbn [qstep]. destruct (is_quote x) eqn:Q; [apply Step; exact H|].
+    destruct (ws_unicode x && negb first) eqn:W; [|apply Step; exact H].
+    change (x :: r ++ rest) with ((x :: r) ++ rest) in *.
+    destruct (starts_with (tstart ((x :: r) ++ rest)) s_then) eqn:T; [|apply Step; exact H].
+    destruct ((length (tstart (skipn 4 (tstart ((x :: r) ++ rest)))) <? length (skipn 4 (tstart ((x :: r) ++ rest))))%nat
+              && nonempty (tstart (skipn 4 (tstart ((x :: r) ++ rest))))) eqn:L; [discriminate|apply Step; exact H].
+Qed.
+
+Definition all_ws (s : str) : Prop := forall c, In c s -> ws_unicode c = true.
+Lemma tstart_ws_app w s : all_ws w -> tstart (w ++ s) = tstart s.
+Proof.
+  induction w as [|c w IH]; intros H; [reflexivity|]. unfold tstart in *. cbn [app trim_start]. rewrite (H c (or_introl eq_refl)).
+  apply IH. intros d Hd. apply H. right. exact Hd.
+Qed.
+Lemma tstart_nonws c s : ws_unicode c = false -> tstart (c :: s) = c :: s.
+Proof. intros H. unfold tstart. cbn [trim_start]. rewrite H. reflexivity. Qed.
+
+(** THE WRITTEN SPLIT: conditions [c] that the scan passes and that end outside a literal, then whitespace, `then`, whitespace and
+    actions [a] that start with a visible character: the split is exactly (c, a) *)
+Theorem scan_then_splits_at_the_written_then : forall c x w2 w3 y a,
+  c <> [] -> passes c (x :: w2 ++ s_then ++ w3 ++ y :: a) None true = true -> scan None c = None ->
+  ws_unicode x = true -> all_ws w2 -> w3 <> [] -> all_ws w3 -> ws_unicode y = false ->
+  scan_then (c ++ x :: w2 ++ s_then ++ w3 ++ y :: a) None [] true = Some (c, y :: a).
+Proof.
+  intros c x w2 w3 y a Hc Hp Hs Hx Hw2 Hw3 Aw3 Hy.
+  rewrite (scan_then_passes c _ None [] true Hp), Hs. rewrite app_nil_r.
+  assert (E : (true && match c with [] => true | _ => false end) = false) by (destruct c; [contradiction|reflexivity]). rewrite E.
+  cbn [scan_then]. assert (Qx : is_quote x = false).
+  { unfold is_quote. unfold ws_unicode in Hx. destruct (x =? 34) eqn:E1; [apply Z.eqb_eq in E1; subst x; discriminate|].
+    destruct (x =? 39) eqn:E2; [apply Z.eqb_eq in E2; subst x; discriminate|reflexivity]. }
+  rewrite Qx, Hx. cbn [negb andb].
+  assert (T1 : tstart (x :: w2 ++ s_then ++ w3 ++ y :: a) = s_then ++ w3 ++ y :: a).
+  { change (x :: w2 ++ s_then ++ w3 ++ y :: a) with ((x :: w2) ++ s_then ++ w3 ++ y :: a).
+    rewrite tstart_ws_app by (intros d [<-|Hd]; [exact Hx|apply Hw2; exact Hd]). apply tstart_nonws. reflexivity. }
+  rewrite T1. cbn [s_then app starts_with]. rewrite !Z.eqb_refl. cbn [andb].
+  assert (S0 : starts_with (w3 ++ y :: a) [] = true) by (destruct (w3 ++ y :: a); reflexivity). rewrite S0.
+  cbn [skipn]. rewrite (tstart_ws_app w3 (y :: a) Aw3), (tstart_nonws y a Hy).
+  assert (L : (length (y :: a) <? length (w3 ++ y :: a))%nat = true).
+  { apply Nat.ltb_lt. rewrite app_length. destruct w3; [contradiction|cbn; lia]. }
+  rewrite L. cbn [nonempty andb]. rewrite rev_involutive. reflexivity.
+Qed.
